@@ -155,15 +155,36 @@ def build_initial(spec):
             Element.append(t, row)
         t2 = Element.from_tag(t.serialize())
         return t2, g
-    if kind == "corpus":
+    if kind in ("corpus", "office"):
         from . import corpus
 
-        t = corpus.load_table(spec["file"], spec["index"])
+        if kind == "office":
+            # the shape office suites write: repeated column declaration with a default cell style, a title merged over n
+            # columns followed by ONE covered-cell element repeated n-1 times, narrower data rows, a repeated empty tail
+            n, dw, dr, cr, tail = spec["span"], spec["data_w"], spec["data_rows"], spec["colrep"], spec["tail"]
+            cr = max(cr, n, dw)
+            rows_xml = (f'<table:table-row><table:table-cell table:number-columns-spanned="{n}" table:number-rows-spanned="1" '
+                        f'office:value-type="string" office:string-value="Title"><text:p>Title</text:p></table:table-cell>'
+                        f'<table:covered-table-cell' + (f' table:number-columns-repeated="{n - 1}"' if n > 2 else "") + "/>"
+                        + (f'<table:table-cell table:number-columns-repeated="{cr - n}"/>' if spec.get("pad") and cr - n > 1 else "") + "</table:table-row>")
+            for i in range(dr):
+                cells = "".join(f'<table:table-cell office:value-type="float" office:value="{i * 10 + j}"><text:p>{i * 10 + j}</text:p></table:table-cell>'
+                                for j in range(dw))
+                rows_xml += f"<table:table-row>{cells}</table:table-row>"
+            if tail:
+                rows_xml += (f'<table:table-row' + (f' table:number-rows-repeated="{tail}"' if tail > 1 else "") + ">"
+                             f'<table:table-cell' + (f' table:number-columns-repeated="{cr}"' if cr > 1 else "") + "/></table:table-row>")
+            xml = (f'<table:table table:name="T"><table:table-column' + (f' table:number-columns-repeated="{cr}"' if cr > 1 else "")
+                   + f' table:default-cell-style-name="ce1"/>{rows_xml}</table:table>')
+            loader = lambda: Element.from_tag(xml)  # noqa: E731
+        else:
+            loader = lambda: corpus.load_table(spec["file"], spec["index"])  # noqa: E731
+        t = loader()
         ex = odfread.expand_table(odfread.parse_fragment(t.serialize()))
         # string cells written by an office suite carry no office:string-value: their
         # value is whatever a pristine copy of the table reads (initial decoding is
         # not what C01 judges; the history semantics are)
-        pristine = corpus.load_table(spec["file"], spec["index"])
+        pristine = loader()
         rows = []
         for y, row in enumerate(ex["rows"]):
             out = []
@@ -204,8 +225,13 @@ def st_initial(corpus_specs=()):
     opts = [
         st.just({"kind": "empty"}),
         st.fixed_dictionaries({"kind": st.just("wh"), "w": st.integers(1, 6), "h": st.integers(1, 6)}),
+        # one dimension left out (or 0): the documented default is 1
+        st.one_of(st.fixed_dictionaries({"kind": st.just("wh"), "w": st.sampled_from([None, 0]), "h": st.integers(1, 6)}),
+                  st.fixed_dictionaries({"kind": st.just("wh"), "w": st.integers(1, 6), "h": st.sampled_from([None, 0])})),
         rle, rle, rle,
     ]
+    opts.append(st.fixed_dictionaries({"kind": st.just("office"), "span": st.integers(2, 6), "data_w": st.integers(1, 4), "data_rows": st.integers(0, 3),
+                                       "colrep": st.integers(1, 8), "tail": st.integers(0, 4), "pad": st.booleans()}))
     if corpus_specs:
         opts.append(st.sampled_from(list(corpus_specs)))
     return st.one_of(*opts)
@@ -534,6 +560,11 @@ class Runner:
             elif k == "read_table" and w:
                 self.t.get_cell((e["kx"] % w, y))
                 self.t.get_value((e["kx"] % w, y))
+            elif k == "read_at_end":
+                # a read just past the last cell of the row (answers an empty cell; must leave nothing behind)
+                self.t.get_value((w, y))
+                self.t.get_cell((w, y))
+                row.get_value(w)
             elif k == "read_first_trailing" and w:
                 # the first of the empty cells that a following rstrip removes
                 mrow = self.m.get_row(y)
@@ -1133,6 +1164,8 @@ def make_machine(ctx, mode, corpus_specs=(), warm_weight=1):
             @rule(ky=kx, edits=st.lists(st.one_of(
                 st.fixed_dictionaries({"k": st.sampled_from(["read", "read_table", "read"]), "kx": kx}),
                 st.fixed_dictionaries({"k": st.just("read_first_trailing"), "aggr": st.booleans(), "via_row": st.booleans()}),
+                st.fixed_dictionaries({"k": st.just("read_at_end")}),
+                st.fixed_dictionaries({"k": st.just("read_at_end")}),
                 st.fixed_dictionaries({"k": st.just("rstrip"), "aggr": st.booleans()}),
                 st.fixed_dictionaries({"k": st.just("rstrip"), "aggr": st.booleans()}),
                 st.fixed_dictionaries({"k": st.just("set_value"), "kx": kx, "v": vi}),
